@@ -316,11 +316,11 @@ func (rn *runner) quiet(ks oidc.KeySet, g *gate, callers []*callerState) bool {
 	inflight, _, _ := rp.VerifC13Inspect(ks)
 	_, gated := g.state()
 	st := string(stackBuf[:runtime.Stack(stackBuf, true)])
-	if parked(st, "remoteKeySet).keysFromRemote") != unfinished {
+	if parked(st, "remoteKeySet).keysFromRemote(") != unfinished {
 		return false
 	}
 	if gated {
-		return inflight && parked(st, "main.(*gate).RoundTrip") >= 1
+		return inflight && parked(st, "main.(*gate).RoundTrip(") >= 1
 	}
 	return !inflight
 }
@@ -343,6 +343,11 @@ func (rn *runner) quiesce(ks oidc.KeySet, g *gate, callers []*callerState) {
 		}
 		if time.Now().After(deadline) {
 			rn.timeouts++
+			if os.Getenv("C13_DEBUG") != "" {
+				inflight, _, _ := rp.VerifC13Inspect(ks)
+				_, gated := g.state()
+				fmt.Fprintf(os.Stderr, "quiescence timeout: inflight=%v gated=%v\n%s\n", inflight, gated, stackBuf[:runtime.Stack(stackBuf, true)])
+			}
 			break
 		}
 		time.Sleep(150 * time.Microsecond)
